@@ -22,7 +22,8 @@ mcAdvC ==
            AAlt(0, "o.example", "h2=\":443\""), AAlt(0, "", "f"), AAlt(1, "", "f1"), AAlt(1, "o", "f2"), AAlt(3, "", "f3"),
            AUnknown(0), AUnknown(1), AH(1, "resp200", FALSE), AHP(1, "resp200", FALSE, <<7, 0, TRUE>>), AHP(1, "resp200", FALSE, <<7, 1, FALSE>>),
            AGoAway(1, 0)})
-  \cup {<<APing("A", FALSE), APing("B", FALSE)>>, <<APing("A", FALSE), APing("B", TRUE), APing("Z", FALSE)>>}
+  \cup {<<APing("A", FALSE), APing("B", FALSE)>>, <<APing("A", FALSE), APing("B", TRUE), APing("Z", FALSE)>>,
+        <<APing("A", FALSE), APing("A", FALSE)>>}          \* the same payload twice: two answers
 mcSetup == Handshake("c", <<>>)
 mcQSids == <<1, 3>>
 mcCfgC == DefaultCfg
